@@ -531,10 +531,25 @@ func BasketLarge() Spec {
 		TakeAll(C, NCT, true),
 		fix(Take(B, NCT, "1", false)),
 		fix(Take(C, NCT, "1000000", false)),
+		// 35 significant digits of tokens (the basket reaches them only after two maximal puts): the exact
+		// quotient does not fit, so the take must be refused, not rounded
+		fix(Take(B, NCT, "10000000000000000000000000000000005", false)),
+		fix(Take(B, NCT, "10000000000000000000000000000000004", true)),
 		fix(BankSend("BankSend(B->C,1NCT)", B, C, coin(NCT, 1))),
 	}
-	return Spec{Name: "basket-large", Seeds: []explore.Seed{PreparedSeed("prepared")},
-		Events: good, DepthQuick: 5, DepthThor: 7, ExpectFail: expectFail("Put(B,eco.uC.NCT," + B1 + ":" + Big35 + ")"), MinStates: 100}
+	// second seed: two maximal deposits already made and all tokens with B (more than 10^34 of them)
+	maxTokens, _ := sdk.NewIntFromString("9999999999999999999999999999999999")
+	full := PreparedSeed("prepared+two-maximal-puts",
+		Mint(A, B1, B, Big, "0", &basetypes.OriginTx{Id: TxHash(901), Source: "polygon"}),
+		Mint(A, B1, C, Big, "0", &basetypes.OriginTx{Id: TxHash(902), Source: "polygon"}),
+		Put(B, NCT, BC(B1, Big)), Put(C, NCT, BC(B1, Big)),
+		BankSend("seed:BankSend(C->B,all NCT)", C, B, sdk.NewCoin(NCT, maxTokens)))
+	full.Name = "prepared+two-maximal-puts"
+	exp := expectFail("Put(B,eco.uC.NCT," + B1 + ":" + Big35 + ")")
+	exp["Take(B,eco.uC.NCT,10000000000000000000000000000000005,retire=false)"] = true
+	exp["Take(B,eco.uC.NCT,10000000000000000000000000000000004,retire=true)"] = true
+	return Spec{Name: "basket-large", Seeds: []explore.Seed{PreparedSeed("prepared"), full},
+		Events: good, DepthQuick: 5, DepthThor: 7, ExpectFail: exp, MinStates: 100}
 }
 
 // Mixed: a cross-module alphabet (issuance, send, retire, basket, market,
